@@ -6,7 +6,7 @@ Open Scope N_scope.
 
 Lemma step_vsim E o : vsim E o.
 Proof.
-  destruct o as [k|p sh|k|k|oth|p|p|p|f|f k].
+  destruct o as [k|p sh|k|k|oth|p|p|p|f|f k|h|h].
   - eapply (sim_vsim E (fun i => get_step E i k) enc_get); [reflexivity | apply get_sim].
   - eapply (sim_vsim E (fun i => items_step E i p sh) enc_items); [reflexivity | apply items_sim_all].
   - eapply (sim_vsim E (fun i => ls_step E i k) enc_ls); [reflexivity | apply ls_sim].
@@ -17,6 +17,8 @@ Proof.
   - eapply (sim_vsim E (fun i => fs_read_step E i p)); [reflexivity | apply fs_read_sim].
   - eapply (sim_vsim E (fun i => view_items_step E i f) enc_items); [reflexivity | apply view_items_sim].
   - eapply (sim_vsim E (fun i => view_ls_step E i f k) enc_ls); [reflexivity | apply view_ls_sim].
+  - eapply (sim_vsim E (fun i => (i, Ok tt)) (fun _ => VL [])); [reflexivity | apply sim_ret].
+  - eapply (sim_vsim E (fun i => (i, Ok tt)) (fun _ => VL [])); [reflexivity | apply sim_ret].
 Qed.
 
 Theorem transparent E : forall ops i,
@@ -222,7 +224,8 @@ Definition ex_env : env :=
      v_data := None;
      v_cache := Some {| s_dirs := [(ex_d, [Rw [[120]] ex_h1 None false; Rw [[115]; [121]] ex_h2 (Some 2) true])];
                         s_blobs := [(ex_h1, [1; 2])] |};
-     v_remote := Some {| s_dirs := []; s_blobs := [(ex_h1, [1; 2]); (ex_h2, [3])] |} |}.
+     v_remote := Some {| s_dirs := []; s_blobs := [(ex_h1, [1; 2]); (ex_h2, [3])] |};
+     v_hidden := []; v_swallow := false |}.
 Definition ex_idx : idx :=
   [([[100]], En true None false (Some ex_d) false); ([[102]], E0 (Some ex_h1) false)].
 Definition ex_ops : list op :=
